@@ -2,6 +2,7 @@ package main
 
 import (
 	"bytes"
+	"encoding/json"
 	"os"
 	"compress/flate"
 	"encoding/gob"
@@ -65,12 +66,12 @@ func runExplore(r *engine.Run, prop string, cfg exploreCfg, rule string) {
 	tagged := map[string]int{} // failures of other properties seen while exploring (reported in evidence, not as violations of this one)
 	var hist func() string
 	_ = hist
-	mkFail := func(ctx func() string) failer {
+	mkFail := func(ctx func() string, cs func() replayCase) failer {
 		return func(props, sig, format string, a ...interface{}) {
 			detail := fmt.Sprintf(format, a...)
 			for _, p := range strings.Split(props, ",") {
 				if p == prop {
-					r.Fail(engine.Failure{Sig: sig, Detail: ctx() + ": " + detail, Case: map[string]interface{}{"history": ctx()}})
+					r.Fail(engine.Failure{Sig: sig, Detail: ctx() + ": " + detail, Case: cs()})
 					return
 				}
 			}
@@ -142,7 +143,7 @@ func runExplore(r *engine.Run, prop string, cfg exploreCfg, rule string) {
 					if l.n.M == nil {
 						return "dead"
 					}
-					oc := l.n.apply(o, check, mkFail(ctxOf(l, &o)))
+					oc := l.n.apply(o, check, mkFail(ctxOf(l, &o), caseOf(w, root, l.hist, &o)))
 					if !check {
 						l.hist = append(l.hist, o)
 					} else {
@@ -168,7 +169,7 @@ func runExplore(r *engine.Run, prop string, cfg exploreCfg, rule string) {
 						return
 					}
 					l.n.deepVerify = prop == "C04" || prop == "C07"
-					l.n.checkState(mkFail(ctxOf(l, nil)), cfg.FullViews)
+					l.n.checkState(mkFail(ctxOf(l, nil), caseOf(w, root, l.hist, nil)), cfg.FullViews)
 				},
 				Save: func(l *live) any {
 					h := append([]op{}, l.hist...)
@@ -248,6 +249,111 @@ func runExplore(r *engine.Run, prop string, cfg exploreCfg, rule string) {
 		"reference model trusts hashing/encoding (decided by C09/C21) and the signature primitive (C10/C14)",
 		"bolt opened with NoSync on tmpfs; crash behaviour is C08's subject")
 	r.Finish(cov)
+}
+
+// replayCase is the replayable artefact of a ledger violation: world, root, the state-changing history and the failing operation.
+type replayCase struct {
+	World string `json:"world"`
+	Root  string `json:"root"`
+	Ops   []op   `json:"ops"`
+	Op    *op    `json:"op,omitempty"`
+}
+
+func caseOf(w world, root string, hist []op, o *op) func() replayCase {
+	return func() replayCase {
+		c := replayCase{World: w.Name, Root: root, Ops: append([]op{}, hist...)}
+		if o != nil {
+			oo := *o
+			c.Op = &oo
+		}
+		return c
+	}
+}
+
+// replayLedger re-executes the cases of a replay file without the explorer: fresh node, seed operations of the root, the recorded
+// history, then the failing operation (or the state oracle), with the oracles of the file's property switched on.
+func replayLedger(prop, file string) int {
+	b, err := os.ReadFile(file)
+	if err != nil {
+		fmt.Fprintln(os.Stderr, "CHECK-BROKEN:", err)
+		return 2
+	}
+	var rf struct {
+		Property  string `json:"property"`
+		Signature string `json:"signature"`
+		Failures  []struct {
+			Case json.RawMessage `json:"case"`
+		} `json:"failures"`
+	}
+	if err := json.Unmarshal(b, &rf); err != nil {
+		fmt.Fprintln(os.Stderr, "CHECK-BROKEN:", err)
+		return 2
+	}
+	worlds := map[string]world{}
+	for _, k := range []string{"follower", "publisher", "publisher-small", "extreme"} {
+		for _, w := range worldsFor(k) {
+			worlds[w.Name] = w
+		}
+	}
+	reproduced := 0
+	for i, f := range rf.Failures {
+		var c replayCase
+		raw := f.Case
+		var asString string
+		if json.Unmarshal(raw, &asString) == nil { // cases that travelled through a worker process are JSON strings
+			raw = json.RawMessage(asString)
+		}
+		if err := json.Unmarshal(raw, &c); err != nil || c.World == "" {
+			fmt.Printf("case %d: not a ledger replay case\n", i)
+			continue
+		}
+		w, ok := worlds[c.World]
+		if !ok {
+			fmt.Printf("case %d: unknown world %s\n", i, c.World)
+			continue
+		}
+		if w.SmallTxn && os.Getenv("USER_MAX_TXN_SIZE") != "1024" {
+			fmt.Printf("case %d: world %s needs USER_MAX_TXN_SIZE=1024 in the environment of the replay\n", i, c.World)
+			continue
+		}
+		n := freshNode(w)
+		n.deepVerify = prop == "C04" || prop == "C07"
+		hit := false
+		fail := func(props, sig, format string, a ...interface{}) {
+			for _, p := range strings.Split(props, ",") {
+				if p == prop {
+					fmt.Printf("case %d: %s: %s\n", i, sig, fmt.Sprintf(format, a...))
+					if sig == rf.Signature {
+						hit = true
+					}
+				}
+			}
+		}
+		ops := c.Ops
+		if c.Root == "distributed" && !(len(ops) >= len(seedOps(w)) && fmt.Sprint(ops[:len(seedOps(w))]) == fmt.Sprint(seedOps(w))) {
+			ops = append(append([]op{}, seedOps(w)...), ops...)
+		}
+		for _, o := range ops {
+			n.apply(o, false, nil)
+		}
+		if c.Op != nil {
+			if n.M != nil {
+				n.apply(*c.Op, true, fail)
+			}
+		} else if n.M != nil {
+			n.checkState(fail, prop == "C07")
+		}
+		n.close()
+		if hit {
+			reproduced++
+		}
+		fmt.Printf("case %d: world=%s root=%s ops=%v op=%v reproduced=%v\n", i, c.World, c.Root, c.Ops, c.Op, hit)
+	}
+	if reproduced > 0 {
+		fmt.Printf("VIOLATION property=%s replay=%s\n", prop, file)
+		return 1
+	}
+	return 0
 }
 
 type savedLive struct {
